@@ -65,6 +65,6 @@ def blpSeqs (pid : UInt16) (blp : Nat) : Nat → Nat → List UInt16
 /-- the lost-packet list `parse_nack_body` produces for a list of (PID, BLP) pairs -/
 def unpackNack : List (UInt16 × Nat) → List UInt16
   | [] => []
-  | (pid, blp) :: rest => pid :: (blpSeqs pid blp 0 16 ++ unpackNack rest)
+  | (pid, blp) :: rest => pid :: (blpSeqs pid blp 0 c15BlpBits ++ unpackNack rest)
 
 end RtcModel.C15
